@@ -71,6 +71,35 @@ func genPart(t *rapid.T, kind string, l geom.Layout) model.G {
 	return *gen.Leaf(t, &o, kind, l)
 }
 
+// genNested draws a collection to be pushed into a collection: with 1..2 members of
+// layout l (declaring l itself half of the time), or without members and declaring l.
+// A loose one (only for parts that must be refused: l is not the receiver's layout) may
+// also declare nothing and hold nothing, or nothing but member-less collections - it
+// then reports no layout at all, which is not the receiver's either.
+func genNested(t *rapid.T, l geom.Layout, loose bool) model.G {
+	o := gen.TreeOpts{Floats: gen.SmallInt | gen.Moderate, MaxParts: 2, MaxPts: 3, PEmpty: 30}
+	g := model.G{Kind: model.GeometryCollection}
+	shape := rapid.IntRange(0, 4).Draw(t, "nestedshape")
+	if !loose && shape > 2 {
+		shape -= 2
+	}
+	switch shape {
+	case 0: // member-less, declaring l
+		g.Layout = int(l)
+	case 1, 2: // members of layout l
+		for n := rapid.IntRange(1, 2).Draw(t, "nnested"); n > 0; n-- {
+			g.Members = append(g.Members, *gen.Leaf(t, &o, rapid.SampledFrom(append([]string{}, gen.SevenKinds...)).Draw(t, "nestedkind"), l))
+		}
+		if shape == 2 {
+			g.Layout = int(l)
+		}
+	case 3: // member-less, declaring nothing
+	default: // nothing but member-less collections
+		g.Members = append(g.Members, model.G{Kind: model.GeometryCollection}, model.G{Kind: model.GeometryCollection, Layout: int(l)})
+	}
+	return g
+}
+
 func otherLayout(t *rapid.T, l geom.Layout) geom.Layout {
 	var cand []geom.Layout
 	for _, x := range layouts {
@@ -116,6 +145,9 @@ func genCase(t *rapid.T) Case {
 				l = rapid.SampledFrom(layouts).Draw(t, "anylayout")
 			}
 			op.Parts = []model.G{genPart(t, pk, l)}
+			if c.Kind == model.GeometryCollection && rapid.IntRange(0, 3).Draw(t, "nestedpart") == 0 {
+				op.Parts = []model.G{genNested(t, l, false)}
+			}
 		case "pushbad":
 			if c.Kind == model.GeometryCollection && !c.Fixed {
 				op.Name = "push"
@@ -127,6 +159,9 @@ func genCase(t *rapid.T) Case {
 				bl = geom.XYM
 			}
 			op.Parts = []model.G{genPart(t, pk, bl)}
+			if c.Kind == model.GeometryCollection && rapid.IntRange(0, 2).Draw(t, "nestedbad") == 0 {
+				op.Parts = []model.G{genNested(t, bl, true)}
+			}
 		case "pushmulti":
 			k := rapid.IntRange(0, 3).Draw(t, "nmulti")
 			op.Bad = -1
@@ -140,6 +175,9 @@ func genCase(t *rapid.T) Case {
 			if c.Fixed && k > 0 && rapid.Bool().Draw(t, "withbad") {
 				op.Bad = rapid.IntRange(0, k-1).Draw(t, "badpos")
 				op.Parts[op.Bad] = genPart(t, pk, otherLayout(t, cur))
+				if rapid.IntRange(0, 2).Draw(t, "nestedbadmulti") == 0 {
+					op.Parts[op.Bad] = genNested(t, otherLayout(t, cur), true)
+				}
 			}
 		case "swap":
 			op.Layout = int(rapid.SampledFrom(layouts).Draw(t, "swaplayout"))
